@@ -59,7 +59,85 @@ func app(sortOf Sort, f string, args ...T) T {
 }
 
 // App builds an application of an (already declared) function symbol.
-func App(sortOf Sort, f string, args ...T) T { return app(sortOf, f, args...) }
+func App(sortOf Sort, f string, args ...T) T {
+	if f == "s_at" && len(args) == 2 {
+		// reads are pushed through updates at construction time: E-matching cannot
+		// relate s[k] and upd(s,i,x)[k] for a k that only occurs under one of them
+		if strings.HasPrefix(args[0].S, "(s_upd ") {
+			if as := SplitArgs(args[0].S); len(as) == 3 {
+				s0, i, x := T{S: as[0], Sort: V}, T{S: as[1], Sort: Int}, T{S: as[2], Sort: V}
+				// the element axiom of s_upd is unguarded (a total function of the
+				// universe; the engine separately obliges every write to be in bounds)
+				return Ite(Eq(args[1], i), x, App(sortOf, "s_at", s0, args[1]))
+			}
+		}
+		if strings.HasPrefix(args[0].S, "(s_sub ") {
+			if as := SplitArgs(args[0].S); len(as) == 3 {
+				s0, lo := T{S: as[0], Sort: V}, T{S: as[1], Sort: Int}
+				if lo.S == "0" {
+					return App(sortOf, "s_at", s0, args[1])
+				}
+				return App(sortOf, "s_at", s0, Add(lo, args[1]))
+			}
+		}
+		if strings.HasPrefix(args[0].S, "(s_app ") {
+			if as := SplitArgs(args[0].S); len(as) == 2 {
+				s0, x := T{S: as[0], Sort: V}, T{S: as[1], Sort: V}
+				return Ite(Eq(args[1], app(Int, "s_len", s0)), x, App(sortOf, "s_at", s0, args[1]))
+			}
+		}
+	}
+	return app(sortOf, f, args...)
+}
+
+// SplitArgs returns the top-level arguments of an application "(f a b c)".
+func SplitArgs(s string) []string {
+	if len(s) < 2 || s[0] != '(' || s[len(s)-1] != ')' {
+		return nil
+	}
+	s = s[1 : len(s)-1]
+	var out []string
+	depth, start := 0, -1
+	inBar := false
+	for i := 0; i < len(s); i++ {
+		c := s[i]
+		if c == '|' {
+			inBar = !inBar
+		}
+		if inBar {
+			if start < 0 {
+				start = i
+			}
+			continue
+		}
+		switch c {
+		case '(':
+			if start < 0 {
+				start = i
+			}
+			depth++
+		case ')':
+			depth--
+		case ' ':
+			if depth == 0 && start >= 0 {
+				out = append(out, s[start:i])
+				start = -1
+			}
+			continue
+		default:
+			if start < 0 {
+				start = i
+			}
+		}
+	}
+	if start >= 0 {
+		out = append(out, s[start:])
+	}
+	if len(out) == 0 {
+		return nil
+	}
+	return out[1:]
+}
 
 func Not(a T) T {
 	if a.S == "true" {
